@@ -324,7 +324,7 @@ class Node:
                 "set_data() for clones requires `with_clones` decision"
             )
 
-        if new_data_id:
+        if new_data_id is not None:
             # data_id (and possibly data) changes: make sure that no parent ends
             # up with two children having the same data_id
             affected = cur_nodes if (has_clones and with_clones) else [self]
